@@ -702,4 +702,252 @@ theorem lazybranchcount_tail {lo : Nat} {hi : Option Nat} (hL : L ≠ 0)
 
 end lazybranchcount
 
+/-! ## the whole loop: head, body, tail -/
+
+/-- a loop whose head (at `a`, one frame `[a]`) and tail (contract `htail`) are given abstractly: `lo = 0` — the head
+    leads to the tail with mark `-1` and no iteration done; `lo ≥ 1` — the head leads into the body -/
+theorem gloop_node {X : Setup} {a L bd b : Nat} {counted lzy : Bool} {lo : Nat} {hi : Option Nat} {S : List Int}
+    {adj : Int → Nat → Int} {f : St → List St} {d : Bool} {i : Nat} {T : List Int} {C : List (Nat × Nat × Nat)}
+    {s : VMState}
+    (htail : TailOK X L bd b counted lzy lo hi S adj) (hadj : ∀ (q p : Nat), adj (q : Int) p = (q : Int))
+    (hn : X.se.n < 2147483647)
+    (hdir : ∀ st, ∀ st' ∈ f st, dirLe d st.pos st'.pos)
+    (hfwf : ∀ st, St.wf X.se.n st → ∀ st' ∈ f st, St.wf X.se.n st')
+    (hbody : ∀ (p : Nat) (C : List (Nat × Nat × Nat)) (T S' : List Int) (s : VMState), St.wf X.se.n ⟨p, C⟩ → T ≠ [] →
+      Entry X bd p T S' C s → Delivers X L T S' S' C (f ⟨p, C⟩) s)
+    (hhi : ∀ h, hi = some h → lo ≤ h) (hcu : counted = false → lo ≤ 1)
+    (hwf : St.wf X.se.n ⟨i, C⟩) (he : Entry X a i T S C s)
+    (hhead0 : lo = 0 → Leads X s (Entry X L i ((a : Int) :: T) (loopStk counted lo S (-1) 0) C))
+    (hhead1 : lo ≠ 0 → Leads X s (Entry X bd i ((a : Int) :: T) (loopStk counted lo S (i : Int) 1) C))
+    (hframe : Framed X.p [(a : Int)])
+    (hback : ∀ (q : Int) (k : Nat) (s' : VMState), FailAt X ((a : Int) :: T) (loopStk counted lo S q k) C s' →
+      Leads X s' (FailAt X T S C)) :
+    Delivers X b T S S C (iter f lzy lo hi (X.se.n + lo + 1) 0 ⟨i, C⟩) s := by
+  have hin : i ≤ X.se.n := hwf.1
+  have hround : ∀ (T' : List Int) (s1 : VMState), T' ≠ [] → Entry X bd i T' (loopStk counted lo S (i : Int) 1) C s1 →
+      Delivers X b T' (loopStk counted lo S (i : Int) 1) S C
+        ((f ⟨i, C⟩).flatMap (iterNext f lzy lo hi (X.se.n + lo) 0 i)) s1 := by
+    intro T' s1 hT' he1
+    have hb := hbody i C T' _ s1 hwf hT' he1
+    refine Delivers.bind _ s1 hb ?_
+    intro r hr F' s' hF' he'
+    have hrwf := hfwf _ hwf r hr
+    have hrd : dirLe d i r.pos := hdir _ r hr
+    have hrn := remDir_le d hrwf.1
+    have hin' := remDir_le d hin
+    refine gloop_delivers htail hadj hn hdir hfwf hbody (X.se.n + lo) 0 r.pos i r.caps (F' ++ T') s' hrwf (by simp [hT'])
+      (fun h => by have := hcu h; omega) ?_ he'
+    intro hne
+    by_cases hl0 : lo = 0
+    · have hrp : r.pos ≠ i := fun h => hne ⟨h.symm, by omega⟩
+      have := remDir_lt hrd hrp hin hrwf.1
+      omega
+    · omega
+  by_cases hl0 : lo = 0
+  · obtain ⟨s1, hr1, he1⟩ := hhead0 hl0
+    refine Delivers.of_reach hr1 ?_
+    have hq : ¬ ((-1 : Int) = (((⟨i, C⟩ : St).pos : Nat) : Int) ∧ lo ≤ 0) := by
+      intro h; have := h.1; simp at this
+    have := htail 0 i (-1) C ((a : Int) :: T) ((f ⟨i, C⟩).flatMap (iterNext f lzy lo hi (X.se.n + lo) 0 i)) s1 hin
+      (fun _ => by omega) (fun _ _ => by omega) he1
+      (fun _ s2 F hF he2 => hround (F ++ (a : Int) :: T) s2 (by simp) he2)
+    rw [tailList_go (f := f) (st := ⟨i, C⟩) hq] at this
+    refine (Delivers.append (F := [(a : Int)]) hframe (ys := []) _ s1 (by simpa using this) ?_).cast rfl
+      (List.append_nil _)
+    intro s'' hf
+    exact hback _ _ s'' (by simpa using hf)
+  · obtain ⟨s1, hr1, he1⟩ := hhead1 hl0
+    refine Delivers.of_reach hr1 ?_
+    have hcg : canGo hi 0 = true := by
+      cases hhi' : hi with
+      | none => rfl
+      | some h => have := hhi h hhi'; simp [canGo]; omega
+    have hit : iter f lzy lo hi (X.se.n + lo + 1) 0 ⟨i, C⟩ = (f ⟨i, C⟩).flatMap (iterNext f lzy lo hi (X.se.n + lo) 0 i) := by
+      rw [iter_succ]
+      have : ¬ lo ≤ 0 := by omega
+      cases lzy <;> simp [this, hcg]
+    rw [hit]
+    refine (Delivers.append (F := [(a : Int)]) hframe (ys := []) _ s1
+      (by simpa using hround ((a : Int) :: T) s1 (by simp) he1) ?_).cast rfl (List.append_nil _)
+    intro s'' hf
+    exact hback _ _ s'' (by simpa using hf)
+
+/-! ## the loop as the writer emits it -/
+
+/-- the tail instruction of an emitted loop satisfies the contract -/
+theorem tail_of_code {X : Setup} {TPx : TP} {sets : List (List Nat)} (hrel : EnvRel TPx sets X.env X.se) {L bd : Nat}
+    {counted lzy : Bool} {lo : Nat} {hi : Option Nat} {lim : Int} (S : List Int) (hL : L ≠ 0)
+    (hcode : CodeAt X.p L (if counted then [i2 (opBranchcount + (if lzy then 1 else 0)) (bd : Int) lim]
+      else [i1 (opBranchmark + (if lzy then 1 else 0)) (bd : Int)]))
+    (hfbd : ∃ w, VM.fetch X.p bd = .ok w) (hl : limOK lo hi lim) (hhin : counted = false → hi = none) :
+    ∃ adj, TailOK X L bd (L + (if counted then 3 else 2)) counted lzy lo hi S adj ∧
+      ∀ (q p : Nat), adj (q : Int) p = (q : Int) := by
+  cases counted with
+  | false =>
+    have := hhin rfl
+    subst this
+    simp only [Bool.false_eq_true, if_false] at hcode ⊢
+    cases lzy with
+    | false =>
+      have hc : CodeAt X.p L [i1 opBranchmark (bd : Int)] := hcode
+      exact ⟨_, branchmark_tail hL hc.instr (by simpa [codeLen] using hc.fetch_end) hfbd, fun _ _ => rfl⟩
+    | true =>
+      have hc : CodeAt X.p L [i1 opLazybranchmark (bd : Int)] := hcode
+      refine ⟨_, lazybranchmark_tail hL hc.instr (by simpa [codeLen] using hc.fetch_end) hfbd, fun q p => ?_⟩
+      simp only [lbmAdj]; rw [if_neg (by omega)]
+  | true =>
+    simp only [if_true] at hcode ⊢
+    cases lzy with
+    | false =>
+      have hc : CodeAt X.p L [i2 opBranchcount (bd : Int) lim] := hcode
+      exact ⟨_, branchcount_tail hrel hL hc.instr (by simpa [codeLen] using hc.fetch_end) hfbd hl, fun _ _ => rfl⟩
+    | true =>
+      have hc : CodeAt X.p L [i2 opLazybranchcount (bd : Int) lim] := hcode
+      exact ⟨_, lazybranchcount_tail hL hc.instr (by simpa [codeLen] using hc.fetch_end) hfbd hl, fun _ _ => rfl⟩
+
+/-- the head of an emitted loop: `Nullmark|Nullcount 0; Goto tail` for a minimum of 0, else `Setmark|Setcount (1 - m)` -/
+theorem head_of_code {X : Setup} {a after : Nat} {counted : Bool} {m : Int} {i : Nat} {T S : List Int}
+    {C : List (Nat × Nat × Nat)} {s : VMState} (h0 : 0 ≤ m)
+    (hcode : CodeAt X.p a ((if counted then (if m == 0 then [i1 opNullcount 0] else [i1 opSetcount (1 - m)])
+      else (if m == 0 then [i0 opNullmark] else [i0 opSetmark])) ++ (if m == 0 then [i1 opGoto (after : Int)] else [])))
+    (hfa : ∃ w, VM.fetch X.p after = .ok w) (he : Entry X a i T S C s) :
+    (m.toNat = 0 → Leads X s (Entry X after i ((a : Int) :: T) (loopStk counted m.toNat S (-1) 0) C)) ∧
+    (m.toNat ≠ 0 → Leads X s (Entry X (a + (if counted then 2 else 1)) i ((a : Int) :: T)
+      (loopStk counted m.toNat S (i : Int) 1) C)) ∧
+    Framed X.p [(a : Int)] ∧
+    (∀ (q : Int) (k : Nat) (s' : VMState), FailAt X ((a : Int) :: T) (loopStk counted m.toNat S q k) C s' →
+      Leads X s' (FailAt X T S C)) := by
+  by_cases hm : m = 0
+  · subst hm
+    simp only [beq_self_eq_true, if_true] at hcode
+    cases counted with
+    | true =>
+      simp only [if_true] at hcode ⊢
+      have hh : InstrAt X.p a (i1 opNullcount 0) := (hcode.left').instr
+      have hg : InstrAt X.p (a + 2) (i1 opGoto (after : Int)) := (hcode.right.cast (by simp [codeLen]) rfl).instr
+      refine ⟨fun _ => ?_, fun h => absurd rfl h, nullcount_frame hh, fun q k s' hf => ?_⟩
+      · obtain ⟨s1, hr1, he1⟩ := nullcount_leads he hh ⟨_, hg.fetch⟩
+        obtain ⟨s2, hr2, he2⟩ := goto_leads he1 hg hfa
+        exact ⟨s2, hr1.trans hr2, by simpa [loopStk] using he2⟩
+      · exact nullcount_back (by simpa [loopStk] using hf) hh
+    | false =>
+      simp only [Bool.false_eq_true, if_false] at hcode ⊢
+      have hh : InstrAt X.p a (i0 opNullmark) := (hcode.left').instr
+      have hg : InstrAt X.p (a + 1) (i1 opGoto (after : Int)) := (hcode.right.cast (by simp [codeLen]) rfl).instr
+      refine ⟨fun _ => ?_, fun h => absurd rfl h, nullmark_frame hh, fun q k s' hf => ?_⟩
+      · obtain ⟨s1, hr1, he1⟩ := nullmark_leads he hh ⟨_, hg.fetch⟩
+        obtain ⟨s2, hr2, he2⟩ := goto_leads he1 hg hfa
+        exact ⟨s2, hr1.trans hr2, by simpa [loopStk] using he2⟩
+      · exact nullmark_back (by simpa [loopStk] using hf) hh
+  · have hmb : (m == 0) = false := by simpa using hm
+    have hmt : m.toNat ≠ 0 := by omega
+    have hmc : ((m.toNat : Nat) : Int) = m := by omega
+    simp only [hmb, Bool.false_eq_true, if_false, List.append_nil] at hcode
+    cases counted with
+    | true =>
+      simp only [if_true] at hcode ⊢
+      have hh : InstrAt X.p a (i1 opSetcount (1 - m)) := hcode.instr
+      refine ⟨fun h => absurd h hmt, fun _ => ?_, setcount_frame hh, fun q k s' hf => ?_⟩
+      · obtain ⟨s1, hr1, he1⟩ := setcount_leads he hh (by simpa [codeLen] using hcode.fetch_end)
+        exact ⟨s1, hr1, by simpa [loopStk, hmc] using he1⟩
+      · exact setcount_back (by simpa [loopStk] using hf) hh
+    | false =>
+      simp only [Bool.false_eq_true, if_false] at hcode ⊢
+      have hh : InstrAt X.p a (i0 opSetmark) := hcode.instr
+      refine ⟨fun h => absurd h hmt, fun _ => ?_, setmark_frame hh, fun q k s' hf => ?_⟩
+      · obtain ⟨s1, hr1, he1⟩ := setmark_leads he hh (by simpa [codeLen] using hcode.fetch_end)
+        exact ⟨s1, hr1, by simpa [loopStk] using he1⟩
+      · exact setmark_back (by simpa [loopStk] using hf) hh
+
+theorem limOK_repArg {m n : Int} (h0 : 0 ≤ m) (hmn : m ≤ n) : limOK m.toNat (hiOf n) (repArg m n) := by
+  unfold hiOf repArg
+  by_cases h : n = maxInt32
+  · simp [h, limOK, maxInt32]
+  · have : (n == maxInt32) = false := by simpa using h
+    simp only [this, Bool.false_eq_true, if_false, limOK]
+    omega
+
+theorem loopHead_len (m n : Int) (after : Int) :
+    codeLen ((if counted m n then (if m == 0 then [i1 opNullcount 0] else [i1 opSetcount (1 - m)])
+      else (if m == 0 then [i0 opNullmark] else [i0 opSetmark])) ++
+      (if m == 0 then [i1 opGoto after] else [])) = loopHeadLen m n := by
+  unfold loopHeadLen
+  cases counted m n <;> cases (m == 0) <;> simp [codeLen]
+
+/-- where the body of an emitted loop sits -/
+theorem loop_body_codeAt {p : Prog} {a : Nat} {m n : Int} {after : Int} {body tail : Code}
+    (hcode : CodeAt p a
+      ((if counted m n then (if m == 0 then [i1 opNullcount 0] else [i1 opSetcount (1 - m)])
+          else (if m == 0 then [i0 opNullmark] else [i0 opSetmark])) ++
+        (if m == 0 then [i1 opGoto after] else []) ++ body ++ tail)) : CodeAt p (a + loopHeadLen m n) body := by
+  have := (hcode.left').right
+  rw [loopHead_len] at this
+  exact this
+
+/-- **`Loop` / `Lazyloop`** as `emitNode` writes it, around a body that delivers `f` -/
+theorem gloopnode_delivers {X : Setup} {TPx : TP} {sets : List (List Nat)} (hrel : EnvRel TPx sets X.env X.se)
+    (hn : X.se.n < 2147483647) {a sz : Nat} {lzy : Bool} {m n : Int} {body : Code} {f : St → List St} {d : Bool}
+    (h0 : 0 ≤ m) (hmn : m ≤ n) (hnm : n ≤ maxInt32)
+    (hcode : CodeAt X.p a
+      ((if counted m n then (if m == 0 then [i1 opNullcount 0] else [i1 opSetcount (1 - m)])
+          else (if m == 0 then [i0 opNullmark] else [i0 opSetmark])) ++
+        (if m == 0 then [i1 opGoto ((a + loopHeadLen m n + sz : Nat) : Int)] else []) ++ body ++
+        (if counted m n then [i2 (opBranchcount + (if lzy then 1 else 0)) ((a + loopHeadLen m n : Nat) : Int) (repArg m n)]
+          else [i1 (opBranchmark + (if lzy then 1 else 0)) ((a + loopHeadLen m n : Nat) : Int)])))
+    (hsz : codeLen body = sz)
+    (hdir : ∀ st, ∀ st' ∈ f st, dirLe d st.pos st'.pos)
+    (hfwf : ∀ st, St.wf X.se.n st → ∀ st' ∈ f st, St.wf X.se.n st')
+    (hbody : ∀ (p : Nat) (C : List (Nat × Nat × Nat)) (T S' : List Int) (s : VMState), St.wf X.se.n ⟨p, C⟩ → T ≠ [] →
+      Entry X (a + loopHeadLen m n) p T S' C s → Delivers X (a + loopHeadLen m n + sz) T S' S' C (f ⟨p, C⟩) s)
+    {i : Nat} {T S : List Int} {C : List (Nat × Nat × Nat)} {s : VMState} (hwf : St.wf X.se.n ⟨i, C⟩)
+    (he : Entry X a i T S C s) :
+    Delivers X (a + loopHeadLen m n + sz + loopTailLen m n) T S S C
+      (iter f lzy m.toNat (hiOf n) (X.se.n + m.toNat + 1) 0 ⟨i, C⟩) s := by
+  have hhl := loopHead_len m n ((a + loopHeadLen m n + sz : Nat) : Int)
+  -- the pieces
+  have hchead := (hcode.left').left'
+  have hcbody : CodeAt X.p (a + loopHeadLen m n) body := by
+    have := (hcode.left').right
+    rw [hhl] at this
+    exact this
+  have hctail := hcode.right
+  rw [codeLen_append, hhl, hsz, ← Nat.add_assoc] at hctail
+  have hfbd : ∃ w, VM.fetch X.p (a + loopHeadLen m n) = .ok w := by
+    have := hchead.fetch_end
+    rw [hhl] at this
+    exact this
+  have hfL : ∃ w, VM.fetch X.p (a + loopHeadLen m n + sz) = .ok w := by
+    have := (hcode.left').fetch_end
+    rw [codeLen_append, hhl, hsz] at this
+    simpa [Nat.add_assoc] using this
+  have hL : a + loopHeadLen m n + sz ≠ 0 := by unfold loopHeadLen; split <;> omega
+  have hhin : counted m n = false → hiOf n = none := by
+    intro h
+    simp only [counted, Bool.or_eq_false_iff, decide_eq_false_iff_not] at h
+    have : n = maxInt32 := by omega
+    simp [hiOf, this]
+  obtain ⟨adj, htail, hadj⟩ := tail_of_code hrel (lo := m.toNat) (hi := hiOf n) S hL hctail hfbd (limOK_repArg h0 hmn) hhin
+  obtain ⟨hh0, hh1, hfr, hbk⟩ := head_of_code (S := S) h0 hchead hfL he
+  have hbl : a + loopHeadLen m n + sz + loopTailLen m n = a + loopHeadLen m n + sz + (if counted m n then 3 else 2) := by
+    unfold loopTailLen; rfl
+  rw [hbl]
+  refine gloop_node htail hadj hn hdir hfwf hbody ?_ ?_ hwf he hh0 ?_ hfr hbk
+  · intro h hh
+    unfold hiOf at hh
+    split at hh
+    · cases hh
+    · next hne =>
+      have : n ≠ maxInt32 := by simpa using hne
+      cases hh
+      omega
+  · intro h
+    simp only [counted, Bool.or_eq_false_iff, decide_eq_false_iff_not] at h
+    omega
+  · intro hne
+    have := hh1 hne
+    unfold loopHeadLen
+    have hmb : (m == 0) = false := by
+      rw [Bool.eq_false_iff]; intro h; rw [beq_iff_eq] at h; rw [h] at hne; exact hne rfl
+    simpa [hmb] using this
+
 end RegexVerif.Compile
